@@ -83,6 +83,13 @@ func (c *Conversation) calcDHSharedSecret() *big.Int {
 }
 
 func (c *Conversation) generateEncryptedSignature(key *akeKeys) ([]byte, error) {
+	if c.ourCurrentKey == nil {
+		// no long-term key was available when the version was chosen: nothing to sign with
+		if err := c.setKeyMatchingVersion(); err != nil {
+			return nil, err
+		}
+	}
+
 	verifyData := appendAll(c.ake.ourPublicValue, c.ake.theirPublicValue, c.ourCurrentKey.PublicKey(), c.ake.keys.ourKeyID)
 
 	mb := sumHMAC(key.m1, verifyData, c.version)
